@@ -21,7 +21,7 @@ ELS = ["NI", "CR", "AL", "FE"]
 FLUX, COMP = BoundaryConditions.FLUX_BC, BoundaryConditions.COMPOSITION_BC
 
 
-def mk_model(ctx, cls, nel, N, bcs, order=None, tag="", strnames=False):
+def mk_model(ctx, cls, nel, N, bcs, order=None, tag="", strnames=False, via=None):
     els = ELS[:nel + 1]
     m = cls([0.0, 1.0], N, els, ["P"], record=True)
     dz = ctx.real(tag + "dz", (0.1, 1.0)); ctx.assume(dz > 0)
@@ -34,6 +34,13 @@ def mk_model(ctx, cls, nel, N, bcs, order=None, tag="", strnames=False):
         lk, rk = bcs[e]
         lv = ctx.real(tag + "leftBC_%s" % els[e + 1], (-0.5, 0.5)); rv = ctx.real(tag + "rightBC_%s" % els[e + 1], (-0.5, 0.5))
         name = {FLUX: "flux", COMP: "composition"}
+        if via in ("setBC", "setBC_default"):
+            # the model-level setter; "setBC_default": the element is left out for the first independent element, which every
+            # other setter of the model (setCompositionLinear, ...) documents as "first independent element"
+            kw = {} if (via == "setBC_default" and e == 0) else {"element": els[e + 1]}
+            m.setBC(kind(lk), lv if lk is not None else 0.0, kind(rk), rv if rk is not None else 0.0, **kw)
+            vals[e] = (lv if lk is not None else 0.0, rv if rk is not None else 0.0)
+            continue
         if lk is not None:
             m.boundaryConditions.setBoundaryCondition("left" if strnames else BoundaryConditions.LEFT, name[lk] if strnames else lk, lv, els[e + 1])
         if rk is not None:
@@ -62,12 +69,12 @@ def check_bcs(ctx, m, nel, N, bcs, vals, J, d, dz, tag=""):
             ctx.prove(tag + "composition condition: right node does not change", ctx.eq(d[e, N - 1], 0.0))
 
 
-def single(ctx, nel=1, N=3, bcs=((None, None),), order=None, strnames=False, other_first=False):
+def single(ctx, nel=1, N=3, bcs=((None, None),), order=None, strnames=False, other_first=False, via=None):
     """single-phase model: fluxes, BCs, telescoping, interior reference"""
     if other_first:
         # another model of the same process got non-default boundary conditions before: they must not leak into this one
         mo, _, _, _ = mk_model(ctx, SinglePhaseModel, nel, N, tuple((COMP, FLUX) for _ in range(nel)), None, tag="other_")
-    m, dz, x, vals = mk_model(ctx, SinglePhaseModel, nel, N, bcs, order, strnames=strnames)
+    m, dz, x, vals = mk_model(ctx, SinglePhaseModel, nel, N, bcs, order, strnames=strnames, via=via)
     Ds = []
     replay = {"on": False, "k": 0}
 
@@ -300,7 +307,8 @@ B2 = [((None, None), (COMP, None)), ((FLUX, COMP), (COMP, FLUX)), ((COMP, COMP),
 HARNESSES = [
     Harness("C04.single", single, functions=_F, assumptions=_A, stubs=_S, bounds={"solutes": "nel", "nodes": "N"},
             params={"quick": [{"nel": 1, "N": 3, "bcs": b} for b in B1] + [{"nel": 2, "N": 3, "bcs": b} for b in B2] + [{"nel": 2, "N": 3, "bcs": B2[0], "order": [1, 0]}] +
-                             [{"nel": 1, "N": 3, "bcs": B1[3], "strnames": True}, {"nel": 2, "N": 3, "bcs": B2[1], "strnames": True}, {"nel": 1, "N": 3, "bcs": B1[0], "other_first": True}],
+                             [{"nel": 1, "N": 3, "bcs": B1[3], "strnames": True}, {"nel": 2, "N": 3, "bcs": B2[1], "strnames": True}, {"nel": 1, "N": 3, "bcs": B1[0], "other_first": True},
+                              {"nel": 1, "N": 3, "bcs": B1[3], "via": "setBC_default"}, {"nel": 2, "N": 3, "bcs": B2[1], "via": "setBC"}, {"nel": 2, "N": 3, "bcs": B2[1], "via": "setBC_default"}],
                     "thorough": [{"nel": 1, "N": 5, "bcs": b} for b in B1] + [{"nel": 1, "N": 3, "bcs": b, "strnames": True} for b in B1] + [{"nel": 2, "N": 3, "bcs": B2[0], "other_first": True}] + [{"nel": 2, "N": 4, "bcs": b, "order": o} for b in B2 for o in ([0, 1], [1, 0])] + [{"nel": 3, "N": 3, "bcs": ((COMP, FLUX), (None, None), (FLUX, COMP)), "order": [2, 0, 1]}]}),
     Harness("C04.homog", homog, functions=_F, assumptions=_A, stubs=_S, bounds={"solutes": "nel", "nodes": "N"}, opts={"ob_timeout": 40.0},
             params={"quick": [{"nel": 1, "N": 3, "bcs": b} for b in B1[:3]] + [{"nel": 2, "N": 3, "bcs": B2[1]}, {"nel": 2, "N": 2, "bcs": B2[0], "order": [1, 0]}],
